@@ -303,6 +303,13 @@ func (s *c22Scn) genW() c22W {
 func (s *c22Scn) doW(w c22W, inGate bool) string {
 	ctx := context.Background()
 	h := s.e.mb.mapHub
+	// an epoch created by a read of the node (channel absent after a clear) and not yet seen in a reply
+	// is numbered now, before a clear of this operation could change the count
+	h.RLock()
+	if channel, ok := h.channels[s.ch]; ok && channel.stream != nil {
+		s.epoch(channel.stream.Epoch())
+	}
+	h.RUnlock()
 	switch w.kind {
 	case "pub":
 		s.nextVal++
